@@ -9,12 +9,11 @@
    implementation reported if that is a well-formed value, otherwise the history is skipped up to the next Reset. *)
 EXTENDS Adt, IOUtils
 TraceLog == ndJsonDeserialize(IOEnv.TRACE)
-VARIABLES l, nbad, dead
-tvars == <<ver, live, l, nbad, dead>>
+VARIABLES l, nbad, dead, tainted      \* tainted: an operation of the current history was rejected (the store follows the implementation since)
 Ev == TraceLog[l]
 IsEvent(e) == l <= Len(TraceLog) /\ Ev.e = e /\ l' = l + 1
 
-TReset == /\ IsEvent("Reset") /\ ver' = <<>> /\ live' = {} /\ dead' = FALSE /\ UNCHANGED nbad
+TReset == /\ IsEvent("Reset") /\ ver' = <<>> /\ live' = {} /\ dead' = FALSE /\ tainted' = FALSE /\ UNCHANGED nbad
 ChgIdx == {Ev.chg[j][1] : j \in DOMAIN Ev.chg}
 ChgVal(i) == Ev.chg[CHOOSE j \in DOMAIN Ev.chg : Ev.chg[j][1] = i][2]
 UpdIdx(r) == {r.upd[j][1] : j \in DOMAIN r.upd}
@@ -37,16 +36,18 @@ Continue(r) ==
                 ELSE IF i \in UpdIdx(r) THEN UpdVal(r, i) ELSE ver[i]]
    /\ live' = (live \ r.kill) \cup ((Len(ver) + 1)..(Len(ver) + Len(r.new)))
 TOp == /\ IsEvent("Op")
-       /\ IF dead THEN UNCHANGED <<ver, live, nbad, dead>>
-          ELSE IF ~Pre(Ev.op, ver, live) THEN PrintT(<<"BADCASE", l>>) /\ nbad' = nbad + 1 /\ dead' = TRUE /\ UNCHANGED <<ver, live>>
+       /\ IF dead THEN UNCHANGED <<ver, live, nbad, dead, tainted>>
+          \* after a rejection the store follows the implementation and a later operation of the history may no longer be applicable
+          ELSE IF ~Pre(Ev.op, ver, live) /\ tainted THEN dead' = TRUE /\ UNCHANGED <<ver, live, nbad, tainted>>
+          ELSE IF ~Pre(Ev.op, ver, live) THEN PrintT(<<"BADCASE", l>>) /\ nbad' = nbad + 1 /\ dead' = TRUE /\ UNCHANGED <<ver, live, tainted>>
           ELSE \E r \in {Eval(Ev.op, ver)} : \E why \in {Why(r)} :
-               /\ IF why = "ok" THEN nbad' = nbad ELSE PrintT(<<"REJECT", l, Ev.op.op, why>>) /\ nbad' = nbad + 1
+               /\ IF why = "ok" THEN nbad' = nbad /\ UNCHANGED tainted
+                  ELSE PrintT(<<"REJECT", l, Ev.op.op, why>>) /\ nbad' = nbad + 1 /\ tainted' = TRUE
                /\ IF Reported(r) THEN Continue(r) /\ UNCHANGED dead ELSE dead' = TRUE /\ UNCHANGED <<ver, live>>
-TEnd == IsEvent("End") /\ nbad = 0 /\ UNCHANGED <<ver, live, nbad, dead>>
-TraceInit == ver = <<>> /\ live = {} /\ l = 1 /\ nbad = 0 /\ dead = FALSE /\ hist = <<>> /\ rnd = <<>> /\ tick = 0
+TEnd == IsEvent("End") /\ nbad = 0 /\ UNCHANGED <<ver, live, nbad, dead, tainted>>
+TraceInit == ver = <<>> /\ live = {} /\ l = 1 /\ nbad = 0 /\ dead = FALSE /\ tainted = FALSE /\ hist = <<>> /\ rnd = <<>> /\ tick = 0
 TraceNext == (TReset \/ TOp \/ TEnd) /\ UNCHANGED <<hist, rnd, tick>>
-TraceSpec == TraceInit /\ [][TraceNext]_<<vars, l, nbad, dead>>
-TTypeInv == dead \/ \A i \in DOMAIN ver : TRUE
+TraceSpec == TraceInit /\ [][TraceNext]_<<vars, l, nbad, dead, tainted>>
 Accepted == LET d == TLCGet("stats").diameter IN
             IF d - 1 = Len(TraceLog) THEN TRUE ELSE PrintT(<<"TRACE_REJECTED_AT", d, Len(TraceLog)>>) /\ FALSE
 =========================================================================
